@@ -10,7 +10,7 @@ CONSTANTS
   Mode = "lemma"
   Cap = 8192
   Dev = {}
-INIT Init
+INIT InitAT
 NEXT Next
 INVARIANTS Inv_WellFormed Lemma_DenoteRender Lemma_Canonical
 CHECK_DEADLOCK FALSE
